@@ -28,6 +28,33 @@ CLAIMS = {
         ref="DESIGN.md §3 C18"),
 }
 
+CLAIMS.update({
+    "C03": dict(
+        technique="static analysis: capture/store/replay token-slot coverage (full_moon metadata vs converter calls, *Tokens fields vs initialisers, AST token slots vs generator writer calls) on typed THIR + MIR wiring rule",
+        text="For all inputs: every token accessor full_moon offers for the node types the converter handles is consumed, every token field is "
+             "stored from the parse tree, every token-bearing AST slot is handed to a writer of the token-based generator (nothing stored can be "
+             "dropped on output), dispatch uses stored tokens, trivia/content emission order is leading-content-trailing, and retain_lines selects the "
+             "preserving parser + token-based generator. Two genuine replay gaps pinned by existing snapshots are recorded as known findings. "
+             "Spacing and parenthesis decisions are not decided.",
+        note="Coverage per (ADT, slot), not path-sensitive; full_moon accessor list from its crate metadata. " + TB,
+        ref="DESIGN.md §3 C03"),
+    "C04": dict(
+        technique="static analysis: token-slot coverage of shift_token_line, Position variant tables, MIR path rule for inserted lines, who-may-write rule on the generator's output/line counter",
+        text="For all inputs: shift_token_line reaches every token slot; replacing token content keeps the recorded line; inserted lines are "
+             "compensated exactly where they are inserted (append_text_comment only at start; bundler running total); the token-based generator's "
+             "line counter is exact and monotone and padding precedes content. Does not decide that arbitrary pipelines never emit a token whose line is already passed.",
+        note="Unrecognised idioms for writing the output buffer fail closed. " + TB,
+        ref="DESIGN.md §3 C04"),
+    "C12": dict(
+        technique="static analysis: token-slot coverage of replace_referenced_tokens, MIR must-pass rule in the bundler, who-may-call Parser::parse, SCC check of the converter call graph, panic-call whitelist at the parser/worker entry points",
+        text="Narrow structural part of crash-freedom, for all inputs: foreign-text token references are always replaced before a required block is "
+             "walked/spliced, replace_referenced_tokens reaches every token slot, the converter's own call graph is acyclic (iterative conversion), "
+             "Parser::parse is fallible and panic-free and maps both error kinds, the worker never unwraps rule/parse results. Panic-freedom of "
+             "arbitrary rule pipelines is NOT decided (value reasoning); a census of panic sites is informational only.",
+        note="full_moon's own recursion is outside the claim. " + TB,
+        ref="DESIGN.md §3 C12"),
+})
+
 NOT_APPLICABLE = {
     "C13": "literal round-trip equality is arithmetic on bytes and doubles (escape padding, shortest float repr, quote choice by content): "
            "no clause is visible in the shape of the code beyond what unit tests already pin; static analysis cannot bound these runtime values",
